@@ -25,9 +25,11 @@ def main():
     items = []
     for d in sorted(glob.glob("/tmp/wt/C*/MUTANT*") + glob.glob("/tmp/wt/R2_C*/MUTANT*")):
         sid = "%s-m%s" % (d.split("/")[3], d[-1])
-        pf = os.path.join(d, "patch.rebased.diff")
-        if not os.path.exists(pf):
-            pf = os.path.join(d, "patch.diff")
+        pf = os.path.join(d, "patch.diff")
+        for alt in ("patch.rebased2.diff", "patch.rebased.diff"):
+            if os.path.exists(os.path.join(d, alt)):
+                pf = os.path.join(d, alt)
+                break
         if os.path.exists(pf) and (not seeds or sid in seeds):
             items.append((sid, pf))
     out = {}
